@@ -212,7 +212,7 @@ func Main(args []string) int {
 			j := prng.Intn(k + 1)
 			order[k], order[j] = order[j], order[k]
 		}
-		jb, _ := json.Marshal(job{Items: order, Runs: p.c.runs, Delays: p.c.delays, Seed: r.Seed + int64(i), Out: p.out, Workdir: mod.Dir, ItemTimeoutS: 300, Reuse: i%2 == 0})
+		jb, _ := json.Marshal(job{Items: order, Runs: p.c.runs, Delays: p.c.delays, Seed: r.Seed + int64(i), Out: p.out, Workdir: mod.Dir, ItemTimeoutS: 300, Reuse: i == 0 || (r.Thorough() && i%2 == 0)})
 		jf := filepath.Join(scratch, fmt.Sprintf("job%d.json", i))
 		os.WriteFile(jf, jb, 0o644)
 		env := genlab.GoEnv(fmt.Sprintf("GOMAXPROCS=%d", p.c.procs), "GORACE=halt_on_error=0 log_path="+p.log)
@@ -417,7 +417,7 @@ func binaryStage(r *ev.Run, scratch string) {
 		}
 		return out
 	}
-	rounds := r.N(4, 30)
+	rounds := r.N(3, 30)
 	if !r.Thorough() {
 		docs = docs[:1]
 	}
